@@ -494,7 +494,8 @@ func runRetryScript(cfg, method, faultStr string, evs []string, plan []planPoint
 		switch f[0] {
 		case "start":
 			go func() {
-				sp, err := cli.Connect(connCtx, "cid", mqtt.WithCleanSession(false))
+				sp, err := cli.Connect(connCtx, "cid", mqtt.WithCleanSession(false), mqtt.WithUserNamePassword("user", "pw"),
+					mqtt.WithWill(&mqtt.Message{Topic: "will/t", Payload: []byte{1, 2}, QoS: mqtt.QoS1, Retain: true}))
 				if err != nil {
 					r.connRet = "err"
 				} else if sp {
